@@ -906,6 +906,30 @@ def _m_any(I, b, a, kw, node):
     return False if not ts else mk(z3.Or(*ts), "bool")
 
 
+@ext("builtins.type")
+def _m_type(I, b, a, kw, node):
+    v = a[0]
+    if isinstance(v, SymV) and v.pytag is not None:
+        raise EngineLimit("type() of a value with a symbolic type tag")
+    k = kind_of(v) if (isinstance(v, (SymV, bool, int, float, str, NameK)) or v is None) else None
+    if v is None:
+        return ExtClass("builtins.NoneType")
+    if k is not None:
+        return ExtClass({"int": "builtins.int", "bool": "builtins.bool", "real": "builtins.float",
+                         "name": "builtins.str"}[k])
+    if isinstance(v, (PyList,)) or (isinstance(v, SymSeq) and v.label != "tuple"):
+        return ExtClass("builtins.list")
+    if isinstance(v, tuple):
+        return ExtClass("builtins.tuple")
+    if isinstance(v, (PyDict, SymDict, SDict)):
+        return ExtClass("builtins.dict")
+    if isinstance(v, PySet):
+        return ExtClass("builtins.set")
+    if isinstance(v, Obj):
+        return ClassRef(v.cls)
+    raise EngineLimit(f"type({v!r})")
+
+
 @ext("builtins.print")
 def _m_print(I, b, a, kw, node):
     return None
